@@ -495,7 +495,7 @@ func genValidPattern(r *Rng) (string, []byte) {
 				sb.WriteByte('.')
 			}
 			n := r.Intn(5)
-			t := []byte(randText(r, "abcxyz019_-", n))
+			t := []byte(randText(r, "abcxyzABZ019_-", n))
 			if n > 0 {
 				if t[0] == '-' {
 					t[0] = 'a'
@@ -562,7 +562,7 @@ func genRoutable(r *Rng, tier string, n int, emit func(string)) {
 		for _, kd := range kinds {
 			switch kd {
 			case 'h':
-				vals = append(vals, randText(r, "abcxyz019", 1+r.Intn(4)))
+				vals = append(vals, randText(r, "abcxyzAZ019-_", 1+r.Intn(4)))
 			case 'p':
 				vals = append(vals, randText(r, "abcxyz019-._~*{}s", 1+r.Intn(4)))
 			default:
